@@ -325,11 +325,25 @@ fn stream_ops(st: &UniStream, key: usize, sig: (bool, bool), server: bool, first
             // control stream was reset before its type was seen, a later one legitimately becomes "the" control stream
             let mut first_settings = true;
             *first_control = false;
+            // a long run of frames is written in one go (one flight of the peer): h3 finds all of it readable in one poll
+            let coalesce = frames.len() > 12;
+            let mut flight = type_bytes(0x00, st.type_form);
+            if coalesce {
+                ops.pop();
+            }
             for (i, f) in frames.iter().enumerate() {
-                ops.push(PeerOp::Write(key, cf_bytes(*f, i, first_settings && *f == CF::Settings, sig, server)));
+                let b = cf_bytes(*f, i, first_settings && *f == CF::Settings, sig, server);
+                if coalesce {
+                    flight.extend(b);
+                } else {
+                    ops.push(PeerOp::Write(key, b));
+                }
                 if *f == CF::Settings {
                     first_settings = false;
                 }
+            }
+            if coalesce {
+                ops.push(PeerOp::Write(key, flight));
             }
             match end {
                 End::Open => {}
@@ -867,7 +881,62 @@ fn gen(t: &mut Tape, bounded: bool) -> Scn {
     }
 }
 
+
+/// A long run of permitted frames in one flight, then something that has to be acted upon: whatever bound an
+/// implementation puts on the work of one poll, nothing that was received may be left lying.
+fn long_run_scn(n: usize, tail: u8, style: Style, poll_api: bool) -> Scn {
+    let mut frames = vec![CF::Settings];
+    frames.extend(std::iter::repeat(CF::MaxPushId).take(n));
+    let end = match tail {
+        0 => {
+            frames.push(CF::Data);
+            End::Open
+        }
+        1 => End::Fin,
+        2 => End::Reset,
+        3 => {
+            frames.push(CF::Settings);
+            End::Open
+        }
+        _ => {
+            frames.push(CF::H2Reserved);
+            End::Open
+        }
+    };
+    Scn { server: true, grease: false, webtransport: false, uni_credit: UNLIMITED, uni_frozen: false, reset_code: 0x10c, newest_first: false, poll_api, send_credit: UNLIMITED, streams: vec![UniStream { kind: Kind::Control { frames, end }, type_form: 1, end_after: End::Open }], style, sig: (true, false) }
+}
+
+fn long_run_family(ctx: &mut Ctx, shard: usize, nshards: usize) -> Verdict {
+    let mut idx = 0usize;
+    let empty: [u16; 0] = [];
+    for n in [12usize, 14, 15, 16, 17, 18, 31, 32, 33, 64, 100] {
+        for tail in 0..5u8 {
+            for (si, style) in [Style::Eager, Style::Tiny].into_iter().enumerate() {
+                for poll_api in [false, true] {
+                    idx += 1;
+                    if idx % nshards != shard {
+                        continue;
+                    }
+                    let s = long_run_scn(n, tail, style, poll_api);
+                    let mut merge = Tape::new(&empty);
+                    let mut sched = Tape::new(&empty);
+                    run_scn(&s, &mut merge, &mut sched, ctx).map_err(|mut e| {
+                        e.direct = Some(json!({"long_run": {"n": n, "tail": tail, "style": si, "poll_api": poll_api}, "decoded": e.case}));
+                        e
+                    })?;
+                    ctx.class("long_run_of_control_frames_in_one_flight");
+                }
+            }
+        }
+    }
+    if shard == 0 {
+        ctx.subspace("server: SETTINGS + n x MAX_PUSH_ID written in one flight (n = 12..100, around 16 / 32 / 64), then DATA / FIN / RESET / a second SETTINGS / an HTTP/2 type x 2 styles x accept() / poll API", idx as u64);
+    }
+    Ok(())
+}
+
 fn exhaustive(ctx: &mut Ctx, shard: usize, nshards: usize) -> Verdict {
+    long_run_family(ctx, shard, nshards)?;
     let mut o = Odometer::new();
     let mut i = 0usize;
     let empty: [u16; 0] = [];
@@ -910,6 +979,13 @@ fn run_tape(tape: &[u16], ctx: &mut Ctx) -> Verdict {
 }
 
 fn run_direct(d: &Value, ctx: &mut Ctx) -> Verdict {
+    if let Some(l) = d.get("long_run") {
+        let s = long_run_scn(l["n"].as_u64().unwrap_or(17) as usize, l["tail"].as_u64().unwrap_or(0) as u8, if l["style"].as_u64() == Some(1) { Style::Tiny } else { Style::Eager }, l["poll_api"].as_bool().unwrap_or(false));
+        let empty: [u16; 0] = [];
+        let mut merge = Tape::new(&empty);
+        let mut sched = Tape::new(&empty);
+        return run_scn(&s, &mut merge, &mut sched, ctx);
+    }
     let digits: Vec<u32> = d["digits"].as_array().map(|a| a.iter().map(|x| x.as_u64().unwrap_or(0) as u32).collect()).unwrap_or_default();
     let mut t = Tape::from_digits(&digits);
     let s = gen(&mut t, true);
